@@ -30,6 +30,7 @@ Targets == {T1, T2, T3, T4, T5}
 
 AN == Ident("an", FALSE, StrS(<<100, 121, 110>>, "dyn"))
 ArgForms == {<<"none", "", Undefined>>, <<"colon", "title", Undefined>>, <<"str2", "title", Undefined>>,
+             <<"str2", "a_b", Undefined>>,          \* a string argument is a name as it stands (an underscore is not a modifier separator)
              <<"computed2", "", AN>>}
 ModForms == {<<"none", <<>>>>, <<"suffix", <<"trim">>>>, <<"array", <<"trim", "lazy">>>>, <<"array", <<>>>>}
 
@@ -48,7 +49,8 @@ Entries1 == VModel(T1, "none", "", Undefined, "none", <<>>)
 Entries2 == VModel(T2, "str2", "title", Undefined, "none", <<>>)
 Entries == {Entries1, Entries2,
             VModel(T3, "none", "", Undefined, "array", <<"trim">>), VModel(T4, "computed2", "", AN, "array", <<"lazy">>),
-            VModel(Ident("m5", TRUE, S(<<53>>)), "str2", "foo", Undefined, "array", <<"trim">>)}
+            VModel(Ident("m5", TRUE, S(<<53>>)), "str2", "foo", Undefined, "array", <<"trim">>),
+            VModel(Ident("m6", TRUE, S(<<54>>)), "str2", "a_b", Undefined, "none", <<>>)}
 NameOfModel(m) == IF m.argform = "none" THEN "modelValue" ELSE IF m.argform = "computed2" THEN "dyn" ELSE m.arg
 DistinctTargets(l) == \A i, j \in 1..Len(l) : i < j => l[i].target # l[j].target /\ NameOfModel(l[i]) # NameOfModel(l[j])
 Lists == {[tag |-> h, attrs |-> <<VModels(l)>>] :
